@@ -64,11 +64,16 @@ def run(ck, pid="C02"):
         ck.cov["traces_validated_against_impl"] += 2
         if f["adf"] or f["hdf5"]:
             ck.finding(key, {"script": wl, "failure": {k: v for k, v in f.items() if v}, "oracle": "TreeDB (ideal node database), extracted from Coq"})
-    for i in range(n):
+    nwide = 6 if thorough else 2
+    for i in range(n + nwide):
         files, nops, big, wide = profile(i)
         if thorough and i % 10 == 9:
             nops *= 3
-        h = nodedb.gen_history(ck.rng, nops, files=files, big=big, wide=wide)
+        if i >= n:
+            files, h = (1,), nodedb.gen_wide_rename(ck.rng)      # renames in a parent whose child table spans disk blocks
+            dist["wide_rename_histories"] = dist.get("wide_rename_histories", 0) + 1
+        else:
+            h = nodedb.gen_history(ck.rng, nops, files=files, big=big, wide=wide)
         r = nodedb.run_three(h, ck.work, "h%d" % i, exe)
         dist["histories"] += 1; dist["lines"] += len(h)
         dist["files"][str(len(files))] = dist["files"].get(str(len(files)), 0) + 1
